@@ -65,7 +65,7 @@ func convertToComplex(other Object) (Complex, bool) {
 }
 
 // Errors
-var complexDivisionByZero = ExceptionNewf(ZeroDivisionError, "complex division by zero")
+var complexDivisionByZero = ExceptionTemplatef(ZeroDivisionError, "complex division by zero")
 
 func (a Complex) M__str__() (Object, error) {
 	return String(fmt.Sprintf("(%g%+gj)", real(complex128(a)), imag(complex128(a)))), nil
